@@ -4,6 +4,7 @@ go 1.26
 
 require (
 	github.com/markusressel/fan2go v0.0.0
+	github.com/prometheus/client_golang v1.22.0
 	github.com/pterm/pterm v0.12.79
 	go.etcd.io/bbolt v1.4.0
 )
@@ -37,7 +38,6 @@ require (
 	github.com/oklog/run v1.1.0 // indirect
 	github.com/orcaman/concurrent-map/v2 v2.0.1 // indirect
 	github.com/pelletier/go-toml/v2 v2.2.3 // indirect
-	github.com/prometheus/client_golang v1.22.0 // indirect
 	github.com/prometheus/client_model v0.6.1 // indirect
 	github.com/prometheus/common v0.63.0 // indirect
 	github.com/prometheus/procfs v0.16.0 // indirect
